@@ -121,3 +121,155 @@ func HarnessAcquireTasks() {
 		vrt.Reach("failed")
 	}
 }
+
+// Two environments acquire their tasks at the same time with the reuse of unlocked tasks switched on. Both need a task
+// of class k1 and the roster holds exactly one idle, unlocked task of that class; A needs a k2 task in addition (it has
+// to be launched, so A waits for the scheduler side), B does not. The scheduler side answers per class: launched, or not
+// launched (A's k2 critical: the acquisition fails after its retries).
+//   - whatever the interleaving, the idle task ends up known to at most one of the two roles, and a role that knows a
+//     task owns it (Task.parent is that role): no environment is left holding - and later controlling, releasing or
+//     killing - a task that belongs to the other or to nobody;
+//   - an acquisition that succeeded has a task for k1 which its role owns; one that failed owns nothing.
+//verif:entry HarnessTwoAcquisitions unwind=24 preempt=1 timers=lazy reach=both-acquired,one-failed,idle-reused stub=github.com/AliceO2Group/Control/common/utils.TimeTrack
+//verif:thorough HarnessTwoAcquisitions preempt=3
+func HarnessTwoAcquisitions() {
+	envA, envB := uid.ID("2envAAAAAAA"), uid.ID("2envBBBBBBB")
+	viper.Set("reuseUnlockedTasks", true)
+	k2Launched := vrt.Bool("A.second.task.is.launched")
+	idle, _ := ftTask("idle", "", true)
+	idle.className = "k1"
+	w := ftManager(Tasks{idle}, nil)
+	w.m.AgentCache.Update(AgentCacheInfo{AgentId: mesos.AgentID{Value: idle.agentId}, Hostname: idle.hostname})
+	tasksToDeploy := make(chan *ResourceOffersDeploymentRequest, 4)
+	w.m.tasksToDeploy = tasksToDeploy
+	w.m.reviveOffersTrg = make(chan struct{})
+	for _, n := range []string{"k1", "k2"} {
+		class := &taskclass.Class{Defaults: gera.MakeMap[string, string](), Vars: gera.MakeMap[string, string](), Properties: gera.MakeMap[string, string]()}
+		class.Identifier = taskclass.Id{Name: n}
+		w.m.classes.UpdateClass(n, class)
+	}
+	idle.GetTaskClass = func() *taskclass.Class { return w.m.GetTaskClass("k1") }
+	aK1 := &ftRole{path: "a.k1", envId: envA, traits: Traits{Critical: true, Timeout: "10s"}}
+	aK2 := &ftRole{path: "a.k2", envId: envA, traits: Traits{Critical: true, Timeout: "10s"}}
+	bK1 := &ftRole{path: "b.k1", envId: envB, traits: Traits{Critical: true, Timeout: "10s"}}
+	descA := Descriptors{{TaskRole: aK1, TaskClassName: "k1"}, {TaskRole: aK2, TaskClassName: "k2"}}
+	descB := Descriptors{{TaskRole: bK1, TaskClassName: "k1"}}
+	n := 0
+	go func() { // the scheduler side
+		for {
+			<-w.m.reviveOffersTrg
+			w.m.reviveOffersTrg <- struct{}{}
+			req := <-tasksToDeploy
+			out := ResourceOffersOutcome{deployed: DeploymentMap{}}
+			for _, d := range req.tasksToDeploy {
+				if d.TaskClassName == "k2" && !k2Launched {
+					out.undeployable = append(out.undeployable, d)
+					continue
+				}
+				n++
+				id := string(rune('0' + n))
+				offer := &mesos.Offer{ID: mesos.OfferID{Value: "offer-" + id}, AgentID: mesos.AgentID{Value: "agent-new"}, Hostname: "host-new"}
+				out.deployed[w.m.newTaskForMesosOffer(offer, d, nil, mesos.ExecutorID{Value: "exec-" + id})] = d
+			}
+			req.outcomeCh <- out
+		}
+	}()
+	var errA, errB error
+	doneA, doneB := make(chan struct{}), make(chan struct{})
+	go func() { errA = w.m.acquireTasks(envA, descA); close(doneA) }()
+	go func() { errB = w.m.acquireTasks(envB, descB); close(doneB) }()
+	<-doneA
+	<-doneB
+
+	vrt.Assert((errA == nil) == k2Launched, "first-acquisition-succeeds-iff-its-critical-task-could-be-launched")
+	vrt.Assert(errB == nil, "second-acquisition-succeeds")
+	vrt.Assert(!(aK1.task == idle && bK1.task == idle), "a-reused-task-is-given-to-one-environment-only")
+	for _, r := range []*ftRole{aK1, aK2, bK1} {
+		if r.task != nil {
+			vrt.Assert(r.task.GetParent() == parentRole(r), "a-role-knows-a-task-only-if-it-owns-it")
+			vrt.Assert(w.m.GetTask(r.task.taskId) == r.task, "acquired-task-is-in-the-roster")
+		}
+	}
+	if p := idle.GetParent(); p != nil {
+		vrt.Assert((p == parentRole(aK1) && aK1.task == idle) || (p == parentRole(bK1) && bK1.task == idle), "the-owner-of-the-reused-task-knows-it")
+		vrt.Reach("idle-reused")
+	}
+	if errA == nil {
+		vrt.Assert(aK1.task != nil && aK2.task != nil, "successful-acquisition-has-a-task-per-descriptor")
+		vrt.Reach("both-acquired")
+	} else {
+		vrt.Assert(idle.GetParent() != parentRole(aK1), "failed-acquisition-leaves-no-task-owned")
+		vrt.Reach("one-failed")
+	}
+	vrt.Assert(bK1.task != nil, "successful-acquisition-has-a-task-per-descriptor")
+}
+
+// A cleanup of unowned tasks (or a kill naming the task) runs while environment A acquires its only task with the reuse
+// of unlocked tasks switched on; the roster holds one idle, unlocked task of the class A needs. Either A reuses the
+// task and the cleanup leaves it alone, or the cleanup takes it and A launches its own - but no KILL is sent for a task
+// at a moment when an environment owns it, and A never ends up owning a task the cleanup asked Mesos to kill.
+//verif:entry HarnessCleanupRacingClaim unwind=24 preempt=1 timers=lazy reach=reused-and-spared,killed-and-launched stub=github.com/AliceO2Group/Control/common/utils.TimeTrack
+//verif:thorough HarnessCleanupRacingClaim preempt=3
+func HarnessCleanupRacingClaim() {
+	envA := uid.ID("2envAAAAAAA")
+	viper.Set("reuseUnlockedTasks", true)
+	byName := vrt.Bool("kill.names.the.task") // KillTasks([id]) instead of Cleanup()
+	idle, _ := ftTask("idle", "", true)
+	idle.className = "k1"
+	w := ftManager(Tasks{idle}, nil)
+	w.m.AgentCache.Update(AgentCacheInfo{AgentId: mesos.AgentID{Value: idle.agentId}, Hostname: idle.hostname})
+	tasksToDeploy := make(chan *ResourceOffersDeploymentRequest, 4)
+	w.m.tasksToDeploy = tasksToDeploy
+	w.m.reviveOffersTrg = make(chan struct{})
+	class := &taskclass.Class{Defaults: gera.MakeMap[string, string](), Vars: gera.MakeMap[string, string](), Properties: gera.MakeMap[string, string]()}
+	class.Identifier = taskclass.Id{Name: "k1"}
+	w.m.classes.UpdateClass("k1", class)
+	idle.GetTaskClass = func() *taskclass.Class { return w.m.GetTaskClass("k1") }
+	aK1 := &ftRole{path: "a.k1", envId: envA, traits: Traits{Critical: true, Timeout: "10s"}}
+	ownedWhenKilled := false
+	w.caller.onKill = func(id string) {
+		if id == idle.taskId && idle.parent != nil {
+			ownedWhenKilled = true
+		}
+		st := mesos.TASK_KILLED // Mesos confirms the kill with a terminal status update
+		go w.m.updateTaskStatus(&mesos.TaskStatus{TaskID: mesos.TaskID{Value: id}, State: &st})
+	}
+	go func() { // the scheduler side
+		for {
+			<-w.m.reviveOffersTrg
+			w.m.reviveOffersTrg <- struct{}{}
+			req := <-tasksToDeploy
+			out := ResourceOffersOutcome{deployed: DeploymentMap{}}
+			for _, d := range req.tasksToDeploy {
+				offer := &mesos.Offer{ID: mesos.OfferID{Value: "offer-new"}, AgentID: mesos.AgentID{Value: "agent-new"}, Hostname: "host-new"}
+				out.deployed[w.m.newTaskForMesosOffer(offer, d, nil, mesos.ExecutorID{Value: "exec-new"})] = d
+			}
+			req.outcomeCh <- out
+		}
+	}()
+	var errA error
+	doneA, doneK := make(chan struct{}), make(chan struct{})
+	go func() { errA = w.m.acquireTasks(envA, Descriptors{{TaskRole: aK1, TaskClassName: "k1"}}); close(doneA) }()
+	go func() {
+		if byName {
+			_, _, _ = w.m.KillTasks([]string{idle.taskId})
+		} else {
+			_, _, _ = w.m.Cleanup()
+		}
+		close(doneK)
+	}()
+	<-doneA
+	<-doneK
+
+	vrt.Assert(errA == nil && aK1.task != nil, "acquisition-succeeds")
+	vrt.Assert(aK1.task.GetParent() == parentRole(aK1), "a-role-knows-a-task-only-if-it-owns-it")
+	vrt.Assert(!ownedWhenKilled, "no-kill-is-sent-for-a-task-an-environment-owns")
+	if aK1.task == idle {
+		vrt.Assert(w.caller.killed(idle.taskId) == 0, "a-task-the-cleanup-asked-to-kill-is-not-given-to-an-environment")
+		vrt.Assert(w.m.GetTask(idle.taskId) == idle, "acquired-task-is-in-the-roster")
+		vrt.Reach("reused-and-spared")
+	} else {
+		vrt.Assert(idle.GetParent() == nil, "a-task-not-given-to-the-environment-stays-unowned")
+		vrt.Reach("killed-and-launched")
+	}
+}
